@@ -26,6 +26,67 @@ def machines(f):
     return sorted(out)
 
 
+def layers(f, mach):
+    """The S-box layer and the linear layer of the bit-sliced F8 for one machine, found by SIGNATURE among the
+    Machine-generic functions of jh_x86_64::compressor: the state type is the struct of eight 128-bit words;
+    S-box layer = fn(state | &mut state, 256-bit constant) -> state | (), linear layer = fn(state | &mut state)
+    -> state | ().  -> (ss key, l key, state type)"""
+    cands_ss, cands_l = [], []
+    st_ty = None
+    for k, inst in f.instances.items():
+        b = inst.get("body")
+        if not b or not inst["def"].startswith("jh_x86_64::compressor::") or "{" in inst["def"]:
+            continue
+        ga = inst.get("generic_args", [])
+        if len(ga) != 1 or ga[0].get("ty") != mach:
+            continue
+        n = b["arg_count"]
+        loc = b["locals"]
+
+        def state_of(t):
+            base = t[5:] if t.startswith("&mut ") else t
+            d = f.types.get(base)
+            if d and d.get("kind") == "struct" and d.get("krate") == "jh_x86_64" and len(d["variants"][0]["fields"]) == 8 \
+                    and d.get("size") == 128:
+                return base
+            return None
+        if n >= 1 and state_of(loc[1]):
+            base = state_of(loc[1])
+            ret_ok = loc[0] == base or loc[0] == "()"
+            byref = loc[1].startswith("&mut ")
+            if not ret_ok or (loc[0] == "()" and not byref):
+                continue
+            if n == 2 and (f.types.get(loc[2]) or {}).get("size") == 32 and not loc[2].startswith("&"):
+                cands_ss.append(k)
+                st_ty = base
+            elif n == 1:
+                cands_l.append(k)
+                st_ty = base
+    if len(cands_ss) != 1 or len(cands_l) != 1:
+        raise Undecided("JH layers for %s: %d S-box layer and %d linear layer candidates" % (facts.short(mach, 40), len(cands_ss), len(cands_l)))
+    return cands_ss[0], cands_l[0], st_ty
+
+
+def layer_rx(f):
+    """(regex of all S-box layer instances, regex of all linear layer instances)"""
+    ss, ll = set(), set()
+    for m in machines(f):
+        a, b, _ = layers(f, m)
+        ss.add(f.instances[a]["def"])
+        ll.add(f.instances[b]["def"])
+    return "^(%s)::<" % "|".join(re.escape(d) for d in sorted(ss)), "^(%s)::<" % "|".join(re.escape(d) for d in sorted(ll))
+
+
+def call_layer(it, f, key, st_ty, state_val, extra):
+    """Call a layer function whatever its convention (by value returning the state, or in place)."""
+    loc = f.instances[key]["body"]["locals"]
+    if loc[1].startswith("&mut "):
+        cell = it.new_cell(state_val, "jh-state")
+        r = it.call_instance(key, [Ptr(cell, ())] + extra)
+        return cell.v if loc[0] == "()" else r
+    return it.call_instance(key, [state_val] + extra)
+
+
 def x8_words(it, v, t):
     """The eight 128-bit words of an X8<M> value (flat bits each)."""
     v = it.as_agg(v, t)
@@ -41,15 +102,15 @@ def c06_ss(report, cfg):
         def go():
             bv.reset()
             it = Interp(f, MODELS)
-            key = "jh_x86_64::compressor::ss::<%s>" % mach
+            key, _, t_state = layers(f, mach)
             inst = f.instances[key]
-            t_state, t_k = inst["body"]["locals"][1:3]
-            rty = inst["body"]["locals"][0]
+            t_k = inst["body"]["locals"][2]
+            rty = t_state
             ws = [bv.inp("w%d" % i, 128) for i in range(8)]
             kk = bv.inp("k", 256)
             fields = it.ty.fields(t_state)
             st = Agg(it.from_bits(w, ft) for w, (off, ft) in zip(ws, fields))
-            out = it.call_instance(key, [st, it.from_bits(kk, t_k)])
+            out = call_layer(it, f, key, t_state, st, [it.from_bits(kk, t_k)])
             ow = x8_words(it, out, rty)
             bad = None
             cols = 0
@@ -98,14 +159,12 @@ def c06_l(report, cfg):
         def go():
             bv.reset()
             it = Interp(f, MODELS)
-            key = "jh_x86_64::compressor::l::<%s>" % mach
-            inst = f.instances[key]
-            t_state = inst["body"]["locals"][1]
-            rty = inst["body"]["locals"][0]
+            _, key, t_state = layers(f, mach)
+            rty = t_state
             ws = [bv.inp("w%d" % i, 128) for i in range(8)]
             fields = it.ty.fields(t_state)
             st = Agg(it.from_bits(w, ft) for w, (off, ft) in zip(ws, fields))
-            out = it.call_instance(key, [st])
+            out = call_layer(it, f, key, t_state, st, [])
             ow = x8_words(it, out, rty)
             dom = J.BvDom()
             for j in range(128):
@@ -127,7 +186,12 @@ def ss_hook(it, key, args, callee):
     inst = it.ins[key]
     t_state, t_k = inst["body"]["locals"][1:3]
     rty = inst["body"]["locals"][0]
-    ws = x8_words(it, args[0], t_state)
+    inplace = t_state.startswith("&mut ")
+    if inplace:
+        t_state = t_state[5:]
+        ws = x8_words(it, it.deref_read(args[0], t_state), t_state)
+    else:
+        ws = x8_words(it, args[0], t_state)
     kk = it.to_bits(args[1], t_k)
     out = [[None] * 128 for _ in range(8)]
     for half, idx in ((0, EVEN), (1, ODD)):
@@ -139,8 +203,12 @@ def ss_hook(it, key, args, callee):
             y = bv.ufn("JH_S%d" % c, (nib,), 4)
             for n, i in enumerate(idx):
                 out[i][j] = y[3 - n]
-    fields = it.ty.fields(rty)
-    return Agg(it.from_bits(tuple(w), ft) for w, (off, ft) in zip(out, fields))
+    fields = it.ty.fields(t_state)
+    res = Agg(it.from_bits(tuple(w), ft) for w, (off, ft) in zip(out, fields))
+    if inplace:
+        it.deref_write(args[0], t_state, res)
+        return Agg(()) if rty == "()" else res
+    return res
 
 
 def bytes_to_msb_bits(flat):
@@ -175,7 +243,7 @@ def c06_f8(report, cfg, only=None):
 
         def go():
             bv.reset()
-            it = Interp(f, MODELS, hooks={r"^jh_x86_64::compressor::ss::<": ss_hook})
+            it = Interp(f, MODELS, hooks={layer_rx(f)[0]: ss_hook})
             key = "jh_x86_64::compressor::f8_impl::<%s>" % mach
             inst = f.instances[key]
             atys = inst["body"]["locals"][1:4]
@@ -207,7 +275,7 @@ def c06_dispatch(report, cfg):
 
     def go():
         bv.reset()
-        it = Interp(f, MODELS, hooks={r"^jh_x86_64::compressor::ss::<": ss_hook})
+        it = Interp(f, MODELS, hooks={layer_rx(f)[0]: ss_hook})
         key = find(f, r"^jh_x86_64::compressor::f8$")
         st_t = it.ty.get(f.instances[key]["body"]["locals"][1])["pointee"]
         h = bv.inp("h", 1024)
